@@ -153,11 +153,13 @@ class S:
 
 
 class Variant:
-    def __init__(self, kind, name, fields, build):
+    def __init__(self, kind, name, fields, build, length=None, fix=None):
         self.kind = kind
         self.name = name
         self.fields = fields  # [(plain field name, spec)]
         self.build = build  # plain dict -> object
+        self.length = length  # plain dict -> expected serialised length (default: kind.length)
+        self.fix = fix  # plain dict -> plain dict: re-establish cross-field constraints after a special value was set
 
     def random_vals(self, rng):
         return {n: s.rand(rng) for n, s in self.fields}
@@ -166,7 +168,12 @@ class Variant:
 class Kind:
     """one PDU class: variants, decoder, canonical field text, documented decode errors"""
 
-    def __init__(self, name, length, from_bits, fmt, errors, variants=None, bit_seeds=None, extra_check=None):
+    def __init__(self, name, length, from_bits, fmt, errors, variants=None, bit_seeds=None, extra_check=None,
+                 dec_line=None, enc_line=None, enc_out=None, n_bits=None):
+        self.dec_line = dec_line or (lambda s: f"{name}.dec {s}")
+        self.enc_line = enc_line or (lambda p, vals: f"{name}.enc {fmt(p, vals.get('crc'))}")
+        self.enc_out = enc_out or (lambda p, bits: sbits(bits))
+        self.n_bits = n_bits
         self.name = name
         self.length = length  # serialised length (None: variable)
         self.from_bits = from_bits
@@ -372,12 +379,13 @@ def check_fields(ctx, kind, variant, vals, record=True):
         ctx.fail("as_bits-raises", inp, f"{kind.name}/{variant.name}: as_bits raised {err}", actual=err)
         return None
     pa = attrs(p)
-    if kind.length is not None and len(bits) != kind.length:
-        ctx.fail("wrong-length", inp, f"{kind.name}/{variant.name}: serialised length {len(bits)} != {kind.length}", expected=kind.length, actual=len(bits))
+    want = variant.length(vals) if variant.length else kind.length
+    if want is not None and len(bits) != want:
+        ctx.fail("wrong-length", inp, f"{kind.name}/{variant.name}: serialised length {len(bits)} != {want}", expected=want, actual=len(bits))
     q, err = call(kind.from_bits, bitarray(bits))
     if err:
         ctx.fail("decode-of-encoded-raises", inp, f"{kind.name}/{variant.name}: from_bits(as_bits(p)) raised {err}", actual=err)
-        return (f"{kind.name}.enc {kind.fmt(p, vals.get('crc'))}", None, p, bits)
+        return (kind.enc_line(p, vals), None, p, bits)
     qa = attrs(q)
     d = diff_attrs(pa, qa)
     if d:
@@ -387,7 +395,7 @@ def check_fields(ctx, kind, variant, vals, record=True):
     if err or b2 != bits:
         ctx.fail("bits-not-stable", inp, f"{kind.name}/{variant.name}: as_bits(from_bits(as_bits(p))) != as_bits(p)",
                  expected=sbits(bits), actual=err or sbits(b2))
-    return (f"{kind.name}.enc {kind.fmt(p, vals.get('crc'))}", None, p, bits)
+    return (kind.enc_line(p, vals), None, p, bits)
 
 
 def check_bits(ctx, kind, b):
@@ -404,8 +412,8 @@ def check_bits(ctx, kind, b):
     if err or e1 is None:
         ctx.fail("as_bits-raises", inp, f"{kind.name}: as_bits of a decoded object raised {err}", actual=err)
         return "ERR as_bits"
-    if kind.length is not None and len(e1) != kind.length:
-        ctx.fail("wrong-length", inp, f"{kind.name}: decoded object serialises to {len(e1)} bits, not {kind.length}", expected=kind.length, actual=len(e1))
+    if len(e1) != len(b):
+        ctx.fail("wrong-length", inp, f"{kind.name}: decoded object serialises to {len(e1)} bits, not {len(b)}", expected=len(b), actual=len(e1))
     o2, err = call(kind.from_bits, bitarray(e1))
     if err:
         ctx.fail("not-a-fixed-point", inp, f"{kind.name}: from_bits(as_bits(from_bits(b))) raised {err}", actual=err)
@@ -528,7 +536,9 @@ def run_fields_case(ctx, kind, variant, vals, enc_pairs, desc, sample=None):
     r = check_fields(ctx, kind, variant, vals)
     if r is not None:
         line, _, p, bits = r
-        enc_pairs.append((line, sbits(bits)))
+        enc_pairs.append((line, kind.enc_out(p, bits)))
+        return p
+    return None
 
 
 def run(ctx):
@@ -577,6 +587,8 @@ def run(ctx):
                     for _ in range(reps):
                         vals = var.random_vals(ctx.rng)
                         vals[fname] = sv
+                        if var.fix:
+                            vals = var.fix(vals)
                         run_fields_case(ctx, k, var, vals, enc_pairs, (k.name, var.name, json.dumps(vals, sort_keys=True)),
                                         sample={"kind": k.name, "variant": var.name, "fields": vals} if first else None)
                         first = False
@@ -587,7 +599,7 @@ def run(ctx):
             ctx.correspond(f"{k.name}.enc", enc_pairs)
         # decode side
         dec_pairs = []
-        n_bits = ctx.budget(1500, 150000) if k.length is None or k.length > 8 else 256
+        n_bits = (ctx.budget(*k.n_bits) if k.n_bits else ctx.budget(1500, 150000)) if k.length is None or k.length > 8 else 256
         seen = set()
         seeds = []
         if k.length == 8:
@@ -597,6 +609,9 @@ def run(ctx):
                 seeds.append(k.bit_seeds(ctx.rng))
             # single-bit mutations of valid encodings
             for line, bits in enc_pairs[: ctx.budget(150, 3000)]:
+                bits = bits.split(" ")[-1]
+                if bits.startswith("ERR"):
+                    continue
                 b = bitarray(bits if bits != "-" else "")
                 if len(b):
                     b.invert(ctx.rng.randrange(len(b)))
@@ -608,7 +623,7 @@ def run(ctx):
             seen.add(s)
             ctx.case((k.name, "bits", s), nontrivial=True, sample={"kind": k.name, "bits": s} if len(seen) == 1 else None)
             out = check_bits(ctx, k, b)
-            dec_pairs.append((f"{k.name}.dec {s}", out))
+            dec_pairs.append((k.dec_line(s), out))
         if not ctx.search_only and ctx.driver_ok and dec_pairs:
             ctx.correspond(f"{k.name}.dec", dec_pairs)
 
